@@ -714,7 +714,7 @@ func (p *plug) GenerateEnvelope(_ context.Context, req *fw.GenerateEnvelopeReque
 		return nil, nil
 	}
 	content := artifactContent
-	if p.entry == "SignBlob" {
+	if p.entry != "Sign" {
 		content = blobContent
 	}
 	view, err := viewOf(req.Payload, content)
@@ -971,7 +971,7 @@ type caseT struct {
 	Spec   string `json:"key_spec"`
 	Format string `json:"format"`
 	Desc   string `json:"descriptor"` // plain | annotated
-	Entry  string `json:"entry"`      // Sign | SignBlob
+	Entry  string `json:"entry"`      // Sign | SignBlob (notation.SignBlob) | SignBlobDirect (PluginSigner.SignBlob with a descriptor generator)
 	Answer string `json:"answer"`
 }
 
@@ -1020,7 +1020,7 @@ func annMap(a [][2]string) map[string]string {
 // wanted is the request as the CALLER stated it (for SignBlob: the blob, its media
 // type and the user metadata; the digest algorithm is the one bound to the key spec
 // the plugin described).
-func wanted(c caseT, p *plug) want {
+func wanted(c caseT, p *plug, genAlg digest.Algorithm) want {
 	var w want
 	if c.Desc == "annotated" {
 		w.Ann = reqAnnotations
@@ -1031,6 +1031,11 @@ func wanted(c caseT, p *plug) want {
 		return w
 	}
 	w.MT, w.Size = mtBlob, int64(len(blobContent))
+	if c.Entry == "SignBlobDirect" && genAlg != "" {
+		// the caller's generator stated the descriptor itself
+		w.Digests = []string{string(genAlg.FromBytes(blobContent))}
+		return w
+	}
 	if h, ok := specHash[p.dkSpec]; ok && p.dkCalled {
 		w.Digests = []string{string(hashDigestAlg[h].FromBytes(blobContent))}
 	} else {
@@ -1043,7 +1048,7 @@ func wanted(c caseT, p *plug) want {
 
 // judge evaluates the statement on a returned signature. It returns the reasons
 // (stable class names) why returning it violates C18, and whether the payload was ambiguous.
-func judge(c caseT, p *plug, sig []byte, info *signature.SignerInfo) (reasons []string, ambiguous bool) {
+func judge(c caseT, p *plug, genAlg digest.Algorithm, sig []byte, info *signature.SignerInfo) (reasons []string, ambiguous bool) {
 	add := func(s string) { reasons = append(reasons, s) }
 	// answers "for the request" (what the plugin really echoed, from its own log)
 	if c.Family == famEnvelope && p.geCalled && p.geEcho != p.geReqType {
@@ -1114,7 +1119,10 @@ func judge(c caseT, p *plug, sig []byte, info *signature.SignerInfo) (reasons []
 		add("returned-payload-not-strict:" + why)
 		return
 	}
-	w := wanted(c, p)
+	if c.Entry == "SignBlobDirect" && genAlg == "" {
+		add("returned-signature-without-asking-for-the-descriptor")
+	}
+	w := wanted(c, p, genAlg)
 	okDigest := false
 	for _, x := range w.Digests {
 		if d.Digest == x {
@@ -1158,6 +1166,10 @@ func runCase(c caseT, worlds map[string]*world, answers map[string]*answer) (res
 		return
 	}
 	res.kind = a.Kind
+	if c.Entry != "Sign" && c.Entry != "SignBlob" && c.Entry != "SignBlobDirect" {
+		res.infra = fmt.Sprintf("unknown entry point in case %v", c)
+		return
+	}
 	p := &plug{w: w, family: c.Family, a: a, entry: c.Entry}
 	ps, err := signer.NewPluginSigner(p, keyID, map[string]string{"cfg": "1"})
 	if err != nil {
@@ -1173,6 +1185,7 @@ func runCase(c caseT, worlds map[string]*world, answers map[string]*answer) (res
 	var serr error
 	var panicked any
 	var stack string
+	var genAlg digest.Algorithm
 	func() {
 		defer func() {
 			if v := recover(); v != nil {
@@ -1180,11 +1193,23 @@ func runCase(c caseT, worlds map[string]*world, answers map[string]*answer) (res
 			}
 		}()
 		opts := notation.SignerSignOptions{SignatureMediaType: c.Format}
-		if c.Entry == "Sign" {
+		switch c.Entry {
+		case "Sign":
 			desc := ocispec.Descriptor{MediaType: mtManifest, Digest: digest.SHA256.FromBytes(artifactContent), Size: 100, Annotations: ann}
 			sig, info, serr = ps.Sign(ctx, desc, opts)
-		} else {
+		case "SignBlob":
 			sig, info, serr = notation.SignBlob(ctx, ps, bytes.NewReader(blobContent), notation.SignBlobOptions{SignerSignOptions: opts, ContentMediaType: mtBlob, UserMetadata: ann})
+		case "SignBlobDirect":
+			gen := func(alg digest.Algorithm) (ocispec.Descriptor, error) {
+				if !alg.Available() {
+					return ocispec.Descriptor{}, fmt.Errorf("digest algorithm %q is not available", alg)
+				}
+				genAlg = alg
+				return ocispec.Descriptor{MediaType: mtBlob, Digest: alg.FromBytes(blobContent), Size: int64(len(blobContent)), Annotations: ann}, nil
+			}
+			sig, info, serr = ps.SignBlob(ctx, gen, opts)
+		default:
+			panic("unknown entry point " + c.Entry)
 		}
 	}()
 	res.calls = strings.Join(p.calls, ",")
@@ -1201,7 +1226,7 @@ func runCase(c caseT, worlds map[string]*world, answers map[string]*answer) (res
 		}
 		res.class = "panic"
 		res.viols = append(res.viols, viol{c.Family + "/panic:" + a.Name,
-			fmt.Sprintf("%s panicked on plugin answer %q (%s, %s, %s descriptor): %v :: %s", c.Entry, a.Name, c.Spec, short(c.Format), c.Desc, panicked, strings.ReplaceAll(firstFrames(stack), "\n", " | "))})
+			fmt.Sprintf("%s panicked on plugin answer %q (%s, %s, %s descriptor): %v :: at %s", c.Entry, a.Name, c.Spec, short(c.Format), c.Desc, panicked, strings.ReplaceAll(firstFrames(stack), "\n", " < "))})
 		return
 	}
 	if serr != nil {
@@ -1213,7 +1238,7 @@ func runCase(c caseT, worlds map[string]*world, answers map[string]*answer) (res
 		return
 	}
 	res.nontrivial = true
-	reasons, amb := judge(c, p, sig, info)
+	reasons, amb := judge(c, p, genAlg, sig, info)
 	res.class = "returned"
 	if amb {
 		res.class = "returned-ambiguous-payload"
@@ -1229,9 +1254,14 @@ func runCase(c caseT, worlds map[string]*world, answers map[string]*answer) (res
 func firstFrames(stack string) string {
 	var keep []string
 	for _, l := range strings.Split(stack, "\n") {
-		if strings.Contains(l, "notation-go/signer") || strings.Contains(l, "/repo/") || strings.Contains(l, "notation-core-go") {
-			keep = append(keep, strings.TrimSpace(l))
-			if len(keep) >= 6 {
+		l = strings.TrimSpace(l)
+		// file:line lines only (no argument addresses, no pc offsets: the text must not vary between runs)
+		if (strings.HasPrefix(l, "/repo/") || strings.Contains(l, "notation-core-go@")) && strings.Contains(l, ".go:") {
+			if i := strings.Index(l, " +0x"); i > 0 {
+				l = l[:i]
+			}
+			keep = append(keep, l)
+			if len(keep) >= 4 {
 				break
 			}
 		}
@@ -1316,7 +1346,7 @@ func main() {
 		specs = []string{pki.RSA2048, pki.EC256, pki.EC384}
 	}
 	descs := []string{"plain", "annotated"}
-	entries := []string{"Sign", "SignBlob"}
+	entries := []string{"Sign", "SignBlob", "SignBlobDirect"}
 	var cases []caseT
 	addAll := func(spec, format, desc, entry string) {
 		for _, fam := range []string{famEnvelope, famRaw} {
@@ -1345,6 +1375,7 @@ func main() {
 		// one RSA-4096 diagonal
 		addAll(pki.RSA4096, forge.JWS, "plain", "SignBlob")
 		addAll(pki.RSA4096, forge.COSE, "annotated", "Sign")
+		addAll(pki.RSA4096, forge.JWS, "annotated", "SignBlobDirect")
 	}
 	// key material: sequentially, before anything runs in parallel
 	for _, c := range cases {
@@ -1401,7 +1432,7 @@ func main() {
 	r.Extra["positive_controls"] = controls
 	r.Extra["positive_controls_accepted"] = controlsOK
 	if !r.Thorough() {
-		r.Extra["quick_bound"] = "RSA-2048, EC-256, EC-384 full product plus an RSA-4096 diagonal (JWS/plain/SignBlob, COSE/annotated/Sign)"
+		r.Extra["quick_bound"] = "RSA-2048, EC-256, EC-384 full product plus an RSA-4096 diagonal (JWS/plain/SignBlob, COSE/annotated/Sign, JWS/annotated/SignBlobDirect)"
 	}
 	if controls == 0 || controlsOK == 0 {
 		r.Infra("vacuous run: %d of %d positive controls (honest plugin answers) returned a signature", controlsOK, controls)
